@@ -751,6 +751,10 @@ func (p *Parser) parseForEach() ast.Expression {
 
 	// get the id
 	p.nextToken()
+	if !p.curTokenIs(token.IDENT) {
+		p.errors = append(p.errors, fmt.Sprintf("first argument to foreach must be ident, got %v", p.curToken))
+		return nil
+	}
 	expression.Ident = p.curToken.Literal
 
 	// If we find a "," we then get a second identifier too.
@@ -799,7 +803,11 @@ func (p *Parser) parseForEach() ast.Expression {
 	}
 
 	// parse the block
-	p.nextToken()
+	if !p.expectPeek(token.LBRACE) {
+		msg := fmt.Sprintf("expected { but got %s around %s", p.curToken.Literal, p.curToken.Position())
+		p.errors = append(p.errors, msg)
+		return nil
+	}
 	expression.Body = p.parseBlockStatement()
 
 	return expression
@@ -813,6 +821,13 @@ func (p *Parser) parseFunctionDefinition() ast.Expression {
 
 	// skip the `function` keyword
 	p.nextToken()
+
+	// The name must be an identifier
+	if !p.curTokenIs(token.IDENT) {
+		msg := fmt.Sprintf("expected function name to be IDENT, got %s around %s", p.curToken.Type, p.curToken.Position())
+		p.errors = append(p.errors, msg)
+		return nil
+	}
 
 	// Define a function with the identifier
 	lit := &ast.FunctionDefinition{Token: p.curToken}
@@ -864,6 +879,12 @@ func (p *Parser) parseFunctionParameters() []*ast.Identifier {
 
 		if p.curTokenIs(token.EOF) {
 			p.errors = append(p.errors, "unterminated function parameters found end of file")
+			return nil
+		}
+
+		// Each parameter must be an identifier.
+		if !p.curTokenIs(token.IDENT) {
+			p.errors = append(p.errors, fmt.Sprintf("function parameters must be IDENT, got %s around %s", p.curToken.Type, p.curToken.Position()))
 			return nil
 		}
 
